@@ -21,6 +21,7 @@ EXPLANATION = (
     "C04.9 a chunk put into a bin has been stamped free (size|PINUSE, foot) on every path, and sys_trim sweeps for releasable segments whatever the top released. "
     "C04.8 the catch-all tree bin (every size above compute_tree_index's bound) is walked with shift 0 in leftshift_for_tree_index, so the bits that order its tree are kept. "
     "C04.10 top spans its segment: init_top gets (new mapping - foot) for a fresh mapping and topsize +/- exactly the change when the segment holding top grows or shrinks in place. "
+    "C04.4 also: the tree attempts depend on allocator state only through the tests that make them necessary and possible, and tmalloc_large searches the larger bins whenever nothing fitting was found; C04.6 also: a block obtained inside Dlmalloc::realloc is, on every path, the result or freed. "
     "NOT decided: the bound itself (a quantitative statement about fragmentation over arbitrary histories) and VmSize behaviour.")
 ASSUMPTIONS = ["dlmalloc's bin/tree invariants (not established here)"]
 
